@@ -14,7 +14,7 @@ EXPLANATION = (
     "`back().tick == tick` edge, None + Err otherwise; add_snap diffs against back() iff delta_tick.is_some().  R3 (Manager): "
     "every message goes receiver -> temp_delta.read -> storage.add_delta, and storage is not touched when the receiver or the "
     "delta reader returned an error.  R4: panic sites reachable from Storage::* / Manager::* / DeltaReceiver::* are discharged or "
-    "reviewed.  Not decided: item-for-item equality over all histories of losses (history level)."
+    "reviewed.  R5: the receiver refuses a duplicated part before inserting it (the reviewed assert rests on it; shared with C12 R3).  Not decided: item-for-item equality over all histories of losses (history level)."
 )
 ASSUMPTIONS = ["the sender follows the storage API (set_delta_tick before add_snap)", "reviewed table lines confirmed by reading the code"]
 TABLES = ["snapshot", "packer", "buffer", "common", "gamenet", "looptable", "postfix"]
